@@ -49,6 +49,11 @@ func (m *MVCCIter) DelMVCC(hash []byte, version int64, strict bool) ([]*types.Ke
 	}
 	//更新last, 读取上次版本的 lastv值，更新last
 	for _, v := range kvs {
+		//版本0之前没有数据, last 直接删除
+		if version == 0 {
+			kvlist = append(kvlist, &types.KeyValue{Key: getLastKey(v.Key)})
+			continue
+		}
 		if version > 0 {
 			lastv, err := m.GetV(v.Key, version-1)
 			if err == types.ErrNotFound {
